@@ -77,6 +77,10 @@ class Arr:
             ext = self.base.extent
             if ext is not None and isinstance(k, int) and not (0 <= k < ext):
                 return Opaque(f'out-of-bounds read {self.base.name}[{k}]')        # logged in OOB_LOG by _bounds; the program reads garbage there
+            if str(self.base.name).startswith('heap block') and isinstance(k, int):
+                # malloc'ed memory nobody wrote yet: the program reads whatever the heap held (logged with the out-of-bounds accesses; the value is unknown)
+                OOB_LOG.append((self.base.name, ext, k, 'read of uninitialised', None))
+                return Opaque(f'uninitialised {self.base.name}[{k}]')
             raise AnalysisError(f'read of unset slot {self.name}[{k}]')
         v = self.default(k)
         return v
@@ -269,6 +273,7 @@ class Interp:
         self.max_depth = max_depth; self.max_unroll = max_unroll
         self.depth = 0
         self.trace_calls = []
+        self.unraisable = []           # (function, exception) swallowed at the boundary of a `noexcept` C function
         self.module_const_cache = {}
         self.module_state = {}         # (module name, variable) -> value written through a `global` statement: persists across calls made with this interpreter
 
@@ -377,9 +382,27 @@ class Interp:
             return None
         except ReturnSignal as r:
             return r.value
+        except RaiseSignal as rs:
+            # a C function declared `noexcept` cannot propagate a Python exception: Cython reports it as unraisable and the function returns at once (0 / nothing)
+            facts = getattr(mod, 'facts', None)
+            info = facts.funcs.get((fnode.name, fnode.lineno)) if facts is not None else None
+            if info is not None and 'noexcept' in info.get('quals', ()):
+                self.unraisable.append((fnode.name, rs.text))
+                return None
+            raise
         finally:
             self.depth -= 1
             self.last_frame = frame
+
+    def c_zero_division(self, e, fr):
+        """Division by an exact zero in a compiled (Cython) source.  With the directive cdivision=True the C operator is used: the result is an infinity or a NaN and
+        execution goes on.  Without it Cython tests the divisor and raises ZeroDivisionError.  None for interpreted sources (callers keep their own treatment)."""
+        mod = getattr(fr, 'mod', None) if fr is not None else None
+        if mod is None or not getattr(mod, 'is_pyx', False):
+            return None
+        if str(getattr(mod, 'directives', {}).get('cdivision', 'False')).strip().lower() in ('true', '1'):
+            return Opaque('inf')
+        raise RaiseSignal(ast.Raise(exc=ast.Name(id='ZeroDivisionError', ctx=ast.Load()), cause=None), 'ZeroDivisionError(float division)')
 
     _PURE_CALLS = ('abs', 'fabs', 'sqrt', 'cbrt', 'min', 'max', 'fmin', 'fmax', 'float', 'int', 'pow', 'exp', 'log', 'sin', 'cos', 'tan', 'copysign', 'hypot', 'creal', 'cimag', 'cabs')
 
@@ -457,10 +480,10 @@ class Interp:
             cur = self.eval(_as_load(st.target), fr)
             rhs = self.eval(st.value, fr)
             if isinstance(cur, ArrBox):
-                r_ = self.binop(st.op, cur.v, unbox(rhs), st)
+                r_ = self.binop(st.op, cur.v, unbox(rhs), st, fr)
                 cur.v = unbox(r_)                # the array object itself changes: every name / container entry bound to it sees the new content
                 return
-            v = self.binop(st.op, cur, rhs, st)
+            v = self.binop(st.op, cur, rhs, st, fr)
             self.assign(st.target, v, fr, st)
             return
         if isinstance(st, ast.Return):
@@ -1078,7 +1101,11 @@ class Interp:
         if isinstance(e.op, ast.USub):
             if isinstance(v, (int, Fraction)) and not isinstance(v, bool): return -v
             if isinstance(v, Opaque): return Opaque('arith')
+            if isinstance(v, Vec):
+                return type(v)([(-x_ if isinstance(x_, (int, Fraction)) and not isinstance(x_, bool) else X.neg(to_node(x_))) for x_ in v])
             return X.neg(to_node(v))
+        if isinstance(e.op, ast.Invert) and isinstance(v, Vec):
+            return Vec([(not x_) if isinstance(x_, bool) else X.add(X.ONE, X.neg(to_node(x_))) for x_ in v])        # ~mask
         if isinstance(e.op, ast.UAdd):
             return v
         if isinstance(e.op, ast.Not):
@@ -1182,7 +1209,10 @@ class Interp:
             if isinstance(op, ast.Sub): return a - b
             if isinstance(op, ast.Mult): return a * b
             if isinstance(op, ast.Div):
-                if b == 0: raise AnalysisError('division by constant zero')
+                if b == 0:
+                    z_ = self.c_zero_division(e, fr)
+                    if z_ is not None: return z_
+                    raise AnalysisError('division by constant zero')
                 r = Fraction(a) / Fraction(b)
                 return X.const(r)
             if isinstance(op, ast.FloorDiv): return a // b
@@ -1205,7 +1235,11 @@ class Interp:
         if isinstance(op, ast.Add): return X.add(na, nb)
         if isinstance(op, ast.Sub): return X.add(na, X.neg(nb))
         if isinstance(op, ast.Mult): return X.mul(na, nb)
-        if isinstance(op, ast.Div): return X.div(na, nb)
+        if isinstance(op, ast.Div):
+            if nb.op == 'const' and nb.val == 0:
+                z_ = self.c_zero_division(e, fr)
+                if z_ is not None: return z_
+            return X.div(na, nb)
         if isinstance(op, ast.Pow): return X.power(na, nb)
         if isinstance(op, ast.FloorDiv):
             ca, cb = concrete(na), concrete(nb)
@@ -1262,6 +1296,10 @@ class Interp:
         for op, rhs in zip(e.ops, e.comparators):
             right = self.eval(rhs, fr)
             r = self.compare(op, left, right, e, fr)
+            if isinstance(r, Vec) and (isinstance(left, Vec) or isinstance(right, Vec)) and not isinstance(op, (ast.In, ast.NotIn, ast.Is, ast.IsNot)):
+                if len(e.ops) > 1:
+                    raise AnalysisError('chained comparison of arrays')
+                return r                      # element-wise result (numpy)
             if isinstance(r, Node):
                 c = concrete(r)
                 if c is None:
@@ -1285,6 +1323,12 @@ class Interp:
         if isinstance(op, ast.NotIn): return a not in b
         if isinstance(a, Opaque) or isinstance(b, Opaque):
             return Opaque('cmp')
+        if (isinstance(a, Vec) or isinstance(b, Vec)) and not isinstance(a, (str, tuple)) and not isinstance(b, (str, tuple)) and a is not None and b is not None:
+            # numpy compares arrays element by element
+            n_ = len(a) if isinstance(a, Vec) else len(b)
+            if isinstance(a, Vec) and isinstance(b, Vec) and len(a) != len(b):
+                raise AnalysisError('comparison of arrays of different lengths')
+            return Vec([self.compare(op, a[i_] if isinstance(a, Vec) else a, b[i_] if isinstance(b, Vec) else b, e, fr) for i_ in range(n_)])
         if isinstance(a, (str, type(None), tuple)) or isinstance(b, (str, type(None), tuple)):
             if isinstance(op, ast.Eq): return a == b
             if isinstance(op, ast.NotEq): return a != b
@@ -1705,6 +1749,8 @@ class Interp:
             base = args[0]
             t = NP_ALIASES.get(nm, nm)
             return Arr(f'{t}({base.name})', default=lambda k, b=base, t=t: X.fn(t, to_node(b.get(k))), shape=base.shape)
+        if (nm in UNARY_FUNCS or nm in NP_ALIASES) and args and isinstance(args[0], Opaque) and args[0].name in ('inf', 'nan', 'arith'):
+            return Opaque('arith')            # a function of an infinity / NaN / unknown stays unknown
         if nm in UNARY_FUNCS:
             return X.fn(nm, to_node(args[0]))
         if nm in NP_ALIASES:
